@@ -596,13 +596,14 @@ Proof.
 Qed.
 
 (* ------------------------------------------------------------------------------------------------ *)
-(* 2-partitions: at least one ballot, at most two distinct approval sets s and t, any two approval sets equal
-   or disjoint, and if s and t differ they cover all the alternatives *)
+(* 2-partitions: at most two distinct approval sets s and t (none when there is no ballot), any two approval sets
+   equal or disjoint, and if s and t differ they cover all the alternatives *)
 Definition TwoPart (alts : list N) (ballots : list (list N)) : Prop :=
   PartOK ballots /\
-  exists s t, In s ballots /\ In t ballots /\
-    (forall b, In b ballots -> SetEq b s \/ SetEq b t) /\
-    (SetEq s t \/ SetEq (s ++ t) alts).
+  (ballots = [] \/
+   exists s t, In s ballots /\ In t ballots /\
+     (forall b, In b ballots -> SetEq b s \/ SetEq b t) /\
+     (SetEq s t \/ SetEq (s ++ t) alts)).
 
 Definition two_cond (alts : list N) (parts : list (list N)) : Prop :=
   length parts = 1 \/ (length parts = 2 /\ SetEq (concat parts) alts).
@@ -618,14 +619,14 @@ Proof.
   destruct Hcond as [Hlen|[Hlen Hcov]].
   - destruct parts as [|p [|q r]]; try discriminate.
     destruct (H2 p (or_introl eq_refl)) as (b0 & Hb0 & E0).
-    exists b0, b0. repeat split; auto.
+    right. exists b0, b0. repeat split; auto.
     + intros b Hb. destruct (H1 b Hb) as (s & [<-|[]] & E). left.
       eapply SetEq_trans; [apply SetEq_sym; exact E|exact E0].
     + left. apply SetEq_refl.
   - destruct parts as [|p [|q [|r rest]]]; try discriminate.
     destruct (H2 p (or_introl eq_refl)) as (bp & Hbp & Ep).
     destruct (H2 q (or_intror (or_introl eq_refl))) as (bq & Hbq & Eq).
-    exists bp, bq. repeat split; auto.
+    right. exists bp, bq. repeat split; auto.
     + intros b Hb. destruct (H1 b Hb) as (s & [<-|[<-|[]]] & E).
       * left. eapply SetEq_trans; [apply SetEq_sym; exact E|exact Ep].
       * right. eapply SetEq_trans; [apply SetEq_sym; exact E|exact Eq].
@@ -639,9 +640,9 @@ Proof.
 Qed.
 
 Lemma two_part_B alts ballots parts :
-  part_check ballots parts = true -> TwoPart alts ballots -> two_cond alts parts.
+  ballots <> [] -> part_check ballots parts = true -> TwoPart alts ballots -> two_cond alts parts.
 Proof.
-  intros Hc [_ (s & t & Hs & Ht & Hall & Hcov)].
+  intros Hne Hc [_ [Hnil|(s & t & Hs & Ht & Hall & Hcov)]]; [contradiction|].
   apply part_check_spec in Hc. destruct Hc as (H1 & H2 & H3).
   assert (Hst : forall p, In p parts -> SetEq p s \/ SetEq p t).
   { intros p Hp. destruct (H2 p Hp) as (b & Hb & E). destruct (Hall b Hb) as [E'|E'];
@@ -693,50 +694,77 @@ Qed.
 
 (* is_2_part returns a list <-> the profile is a 2-partition; the returned list passes the 2-partition checker *)
 Theorem two_part_correct alts ballots :
-  (exists parts, is_2_part alts ballots = Some parts) <-> TwoPart alts ballots.
+  ballots <> [] ->
+  ((exists parts, is_2_part alts ballots = Some parts) <-> TwoPart alts ballots).
 Proof.
-  split.
+  intros Hne. split.
   - intros (parts & H). apply is_2_part_unfold in H. destruct H as [H Hc].
     apply (two_part_A alts ballots parts); [now apply part_witness|exact Hc].
   - intros HT. assert (HP : PartOK ballots) by apply HT.
     apply part_correct in HP. destruct HP as (parts & Hp). exists parts.
     apply is_2_part_unfold. split; [exact Hp|].
-    apply (two_part_B alts ballots parts); [now apply part_witness|exact HT].
+    apply (two_part_B alts ballots parts Hne); [now apply part_witness|exact HT].
 Qed.
 
-Lemma part2_check_unfold alts ballots parts :
-  part2_check alts ballots parts = true <-> part_check ballots parts = true /\ two_cond alts parts.
+(* soundness of is_2_part holds without the hypothesis *)
+Theorem two_part_sound alts ballots parts : is_2_part alts ballots = Some parts -> TwoPart alts ballots.
 Proof.
-  unfold part2_check, two_cond. rewrite andb_true_iff, orb_true_iff, andb_true_iff, !Nat.eqb_eq, set_eq_iff.
-  reflexivity.
+  intros H. apply is_2_part_unfold in H. destruct H as [H Hc].
+  apply (two_part_A alts ballots parts); [now apply part_witness|exact Hc].
+Qed.
+
+Definition two_cond_check (alts : list N) (parts : list (list N)) : Prop :=
+  length parts <= 1 \/ (length parts = 2 /\ SetEq (concat parts) alts).
+
+Lemma part2_check_unfold alts ballots parts :
+  part2_check alts ballots parts = true <-> part_check ballots parts = true /\ two_cond_check alts parts.
+Proof.
+  unfold part2_check, two_cond_check.
+  rewrite andb_true_iff, orb_true_iff, andb_true_iff, Nat.leb_le, Nat.eqb_eq, set_eq_iff. reflexivity.
 Qed.
 
 Theorem two_part_witness alts ballots parts :
   is_2_part alts ballots = Some parts -> part2_check alts ballots parts = true.
 Proof.
   intros H. apply is_2_part_unfold in H. destruct H as [H Hc].
-  apply part2_check_unfold. split; [now apply part_witness|exact Hc].
+  apply part2_check_unfold. split; [now apply part_witness|].
+  destruct Hc as [Hc|Hc]; [left; lia|now right].
 Qed.
 
 Theorem part2_check_sound alts ballots parts : part2_check alts ballots parts = true -> TwoPart alts ballots.
-Proof. intros H. apply part2_check_unfold in H. destruct H as [H Hc]. now apply (two_part_A alts ballots parts). Qed.
+Proof.
+  intros H. apply part2_check_unfold in H. destruct H as [H Hc].
+  destruct parts as [|p rest].
+  - (* no part: no ballot *)
+    apply part_check_spec in H. destruct H as (H1 & _ & _).
+    destruct ballots as [|b bs]; [|destruct (H1 b (or_introl eq_refl)) as (s & [] & _)].
+    split; [intros b1 b2 []|now left].
+  - apply (two_part_A alts ballots (p :: rest) H).
+    destruct Hc as [Hc|Hc]; [left; simpl in *; lia|now right].
+Qed.
 
-(* is_2_part refuses every profile without ballots (zero distinct approval sets) *)
+(* is_2_part refuses the profile without ballots, which has zero (at most two) distinct approval sets *)
 Theorem two_part_no_ballots alts : is_2_part alts [] = None.
 Proof. reflexivity. Qed.
+
+Theorem two_part_no_ballots_refuted :
+  exists alts ballots, TwoPart alts ballots /\ is_2_part alts ballots = None.
+Proof.
+  exists [1%N], []. split; [|reflexivity]. split; [intros b1 b2 []|now left].
+Qed.
 
 Theorem part2_decide_correct alts ballots : part2_decide alts ballots = true <-> TwoPart alts ballots.
 Proof.
   unfold part2_decide, TwoPart. rewrite andb_true_iff, part_decide_correct.
   split; intros [HP H]; (split; [exact HP|]).
-  - destruct ballots as [|s rest]; [discriminate|].
+  - destruct ballots as [|s rest]; [now left|]. right.
     apply existsb_exists in H. destruct H as (t & Ht & H). apply andb_true_iff in H. destruct H as [Hall Hcov].
     exists s, t. split; [now left|]. split; [exact Ht|]. split.
     + intros b Hb. rewrite forallb_forall in Hall. specialize (Hall b Hb). apply orb_true_iff in Hall.
       destruct Hall as [E|E]; [left|right]; now apply set_eq_iff.
     + apply orb_true_iff in Hcov. destruct Hcov as [E|E]; [left|right]; now apply set_eq_iff.
-  - destruct H as (s & t & Hs & Ht & Hall & Hcov).
-    destruct ballots as [|s0 rest]; [destruct Hs|].
+  - destruct ballots as [|s0 rest]; [reflexivity|].
+    destruct H as [H|(s & t & Hs & Ht & Hall & Hcov)]; [discriminate|].
     (* the first ballot is one of the two sets *)
     assert (Hgen : forall u, In u (s0 :: rest) -> (forall b, In b (s0 :: rest) -> SetEq b s0 \/ SetEq b u) ->
                    (SetEq s0 u \/ SetEq (s0 ++ u) alts) ->
@@ -747,14 +775,12 @@ Proof.
         destruct (Hall' b Hb) as [E|E]; [left|right]; now apply set_eq_iff.
       - apply orb_true_iff. destruct Hcov' as [E|E]; [left|right]; now apply set_eq_iff. }
     destruct (Hall s0 (or_introl eq_refl)) as [E0|E0].
-    + (* s0 ~ s: take u = t *)
-      apply (Hgen t Ht).
+    + apply (Hgen t Ht).
       * intros b Hb. destruct (Hall b Hb) as [E|E]; [left|now right].
         eapply SetEq_trans; [exact E|now apply SetEq_sym].
       * destruct Hcov as [E|E]; [left; eapply SetEq_trans; eassumption|right].
         eapply SetEq_trans; [|exact E]. apply SetEq_app; [exact E0|apply SetEq_refl].
-    + (* s0 ~ t: take u = s *)
-      apply (Hgen s Hs).
+    + apply (Hgen s Hs).
       * intros b Hb. destruct (Hall b Hb) as [E|E]; [now right|left].
         eapply SetEq_trans; [exact E|now apply SetEq_sym].
       * destruct Hcov as [E|E]; [left; eapply SetEq_trans; [exact E0|now apply SetEq_sym]|right].
